@@ -71,6 +71,15 @@ def gen_file_bytes(rng: random.Random, boundary: bytes) -> bytes:
     return out
 
 
+def file_bytes(p: dict) -> bytes:
+    """A file part's content; ``repeat`` makes large uploads cheap to store in a case (the unit is free of dashes, so
+    no delimiter can form at a seam)."""
+    unit = s2b(p.get("payload", ""))
+    rep = p.get("repeat", 1)
+    rep = max(1, min(5000, rep)) if isinstance(rep, int) else 1
+    return unit * rep if rep > 1 and b"-" not in unit else unit
+
+
 def grouped(pairs: list[tuple]) -> list[tuple]:
     """Order in which a MultiDict iterates (key first-insertion order, values per key in order)."""
     order: list = []
@@ -140,6 +149,14 @@ class UploadPipeline(Scenario):
         # repeated names on purpose
         if len(parts) >= 2 and rng.random() < 0.4:
             parts[-1]["name"] = parts[0]["name"]
+        big = rng.random() < 0.004
+        if big:
+            # an upload well beyond the parser's read size and the default in-memory limits, read in full-size pieces
+            unit = bytes(rng.choice(b"abcdefghijklmnopqrstuvwxyz0123456789\r\n \x00\xff") for _ in range(rng.choice([97, 256, 1000])))
+            parts = parts[:2] + [{"kind": "file", "name": gen_name(rng, False), "filename": "big.bin", "ctype": "application/octet-stream", "payload": b2s(unit), "repeat": rng.choice([520_000, 700_000, 1_100_000]) // len(unit), "splits": [], "final_empty": False}]
+            if enc == "encoder":
+                enc = "stream"
+            dec = rng.choice(["request", "request", "parser"])
         return {
             "enc": enc,
             "dec": dec,
@@ -148,11 +165,12 @@ class UploadPipeline(Scenario):
             "rand": rnd,
             "parts": parts,
             "threshold": rng.choice([1024 * 500, 1024 * 500, 0, 50, 200]),
-            "file_tape": [] if rng.random() < 0.4 else [rng.choice([0, 1, 2, 3, 10]) for _ in range(30)],
+            "file_tape": [] if rng.random() < 0.4 or big else [rng.choice([0, 1, 2, 3, 10]) for _ in range(30)],
             "cuts": sorted(rng.randrange(1, 400) for _ in range(rng.choice([0, 1, 2, 5, 12]))),
-            "bytewise": rng.random() < 0.1,
-            "bufsize": rng.choice([1, 2, 5, 16, 64, 1024, 65536]),
-            "tape": [] if rng.random() < 0.4 else [rng.choice([0, 0, 1, 2, 7, 50]) for _ in range(60)],
+            "bytewise": rng.random() < 0.1 and not big,
+            "empties": sorted(rng.randrange(0, 14) for _ in range(rng.choice([0, 0, 1, 2]))),
+            "bufsize": rng.choice([1, 2, 5, 16, 64, 1024, 65536]) if not big else 65536,
+            "tape": [] if rng.random() < 0.4 or big else [rng.choice([0, 0, 1, 2, 7, 50]) for _ in range(60)],
             "field_split": rng.random() < 0.3,
             # how the application fills the builder: constructor data, in-place adds, or assigning form / files in either order
             "builder_form": rng.choice(["ctor", "ctor", "inplace", "assign_form_first", "assign_files_first", "ctor_files_then_assign_form", "ctor_fields_then_assign_files"]),
@@ -163,7 +181,7 @@ class UploadPipeline(Scenario):
         fields, files, seq = [], [], []
         for p in case.get("parts", []):
             if p.get("kind") == "file":
-                t = (str(p.get("name", "")), str(p.get("filename") or ""), str(p.get("ctype", "text/plain")), s2b(p.get("payload", "")))
+                t = (str(p.get("name", "")), str(p.get("filename") or ""), str(p.get("ctype", "text/plain")), file_bytes(p))
                 files.append(t)
                 seq.append(("file", t[0], t[1], t[3]))
             else:
@@ -196,7 +214,7 @@ class UploadPipeline(Scenario):
                 if p.get("kind") == "file":
                     hdrs = Headers([("Content-Type", str(p.get("ctype", "text/plain")))])
                     body += e.send_event(mp.File(name=str(p.get("name", "")), filename=str(p.get("filename") or ""), headers=hdrs))
-                    data = s2b(p.get("payload", ""))
+                    data = file_bytes(p)
                     pos = 0
                     for sz in p.get("splits", []):
                         sz = max(0, int(sz)) if isinstance(sz, int) else 0
@@ -234,7 +252,7 @@ class UploadPipeline(Scenario):
         sims = []
 
         def fs(p):
-            sf = SimFile(s2b(p.get("payload", "")), ftape, seekable=True)
+            sf = SimFile(file_bytes(p), ftape, seekable=True)
             sims.append(sf)
             return FileStorage(sf, filename=str(p.get("filename") or ""), name=str(p.get("name", "")), content_type=str(p.get("ctype", "text/plain")))
 
@@ -350,8 +368,11 @@ class UploadPipeline(Scenario):
         exp_files = grouped([(x[1], x[2], x[4], x[3]) for x in full if x[0] == "file"])
         cuts = list(range(1, len(body))) if case.get("bytewise") else [c for c in case.get("cuts", []) if isinstance(c, int)]
         if dec == "decoder":
-            res = decode_events(boundary, split(body, cuts))
+            empties = [e for e in case.get("empties", []) if isinstance(e, int)]
+            res = decode_events(boundary, split(body, cuts, empties))
             out.fault("fragmented_arrival", len(cuts))
+            if empties:
+                out.fault("zero_length_arrival", len(empties))
             if res[0] != "ok":
                 out.violate(f"{pre}/decode-fails/{res[1]}/enc={enc}/dec=decoder", f"{res[1]}: {res[2]}; body={body[:300]!r}")
             else:
